@@ -12,6 +12,7 @@ from .. import gen, msgwork, mutate, sentinel
 from ..core import hx, unhx, digest
 from ..ref import blocking as refb
 from ..ref import codec as ref
+from .c09 import PipeLike
 
 ID = 'C07'
 LEVEL = 'fault_enumeration'
@@ -170,6 +171,11 @@ def cases(ctx):
         i += 1
         if ctx.mine(i):
             yield {'kind': 'cpu_guard', 'enc': enc}
+    from .. import optrun
+    for j, opts in enumerate(optrun.OPTION_SETS):
+        i += 1
+        if ctx.mine(i):
+            yield {'kind': 'interpreter_options', 'options': list(opts), 'enc': ('latin_1', 'cp500')[j % 2], 'base': 3 + 8 * j}
 
 
 def lib_error(ctx, which):
@@ -269,6 +275,8 @@ def judge(ctx, case):
         return judge_file(ctx, case)
     if kind == 'cpu_guard':
         return judge_cpu_guard(ctx, case)
+    if kind == 'interpreter_options':
+        return judge_interpreter_options(ctx, case)
     if kind == 'process':
         return judge_process(ctx, case)
     if kind == 'scaling':
@@ -279,9 +287,11 @@ def judge(ctx, case):
         fdata, enc, blocked = unhx(case['data']), case['enc'], case['blocked']
         for which in ('VbsReader', 'IpmReader'):
             def body():
+                # one file in seven arrives through a stream that cannot seek or tell (a pipe): the outcome classes are the same
+                src = PipeLike(fdata) if idx % 7 == 3 else io.BytesIO(fdata)
                 if which == 'VbsReader':
-                    return sum(1 for _ in ctx.mciipm.VbsReader(io.BytesIO(fdata), blocked=blocked))
-                return sum(1 for _ in ctx.mciipm.IpmReader(io.BytesIO(fdata), encoding=enc, blocked=blocked))
+                    return sum(1 for _ in ctx.mciipm.VbsReader(src, blocked=blocked))
+                return sum(1 for _ in ctx.mciipm.IpmReader(src, encoding=enc, blocked=blocked))
             k2, val = ctx.call(body, budget=sentinel.budget_for(len(fdata)))
             cls, mech = outcome(ctx, k2, val, which)
             if mech:
@@ -357,9 +367,11 @@ def judge_file(ctx, case):
         ctx.crumb({'kind': 'onefile', 'data': hx(fdata), 'enc': enc, 'blocked': blocked})
         for which in ('VbsReader', 'IpmReader'):
             def body():
+                # one file in seven arrives through a stream that cannot seek or tell (a pipe): the outcome classes are the same
+                src = PipeLike(fdata) if idx % 7 == 3 else io.BytesIO(fdata)
                 if which == 'VbsReader':
-                    return sum(1 for _ in ctx.mciipm.VbsReader(io.BytesIO(fdata), blocked=blocked))
-                return sum(1 for _ in ctx.mciipm.IpmReader(io.BytesIO(fdata), encoding=enc, blocked=blocked))
+                    return sum(1 for _ in ctx.mciipm.VbsReader(src, blocked=blocked))
+                return sum(1 for _ in ctx.mciipm.IpmReader(src, encoding=enc, blocked=blocked))
             kind, val = ctx.call(body, budget=sentinel.budget_for(len(fdata)))
             ctx.count(which + ' file iterations')
             cls, mech = outcome(ctx, kind, val, which)
@@ -446,6 +458,68 @@ def de43_shapes():
         out.append(('N' * 30 + '\\' + 'A' * 30 + '\\' + 'S' * 20 + '\\' + 'X' * k)[:99])
     out += ['.*+?()[]{}|^$' * 5, 'A' * 50 + '\\\\\\' + 'B' * 40, 'SHOP\\HIGH ST\\TOWN\\ABCDEFGHIJNSW  S', 'SHOP\\HIGH ST\\TOWN\\ABCDEFGHIJNSWAUS']
     return [v for v in out if 0 < len(v) <= 99]
+
+
+def judge_interpreter_options(ctx, case):
+    """The decode / read / write calls in a child interpreter started with other options (-bb, -O, warnings as errors):
+    good input must give a result, bad input a result or the library's error - never anything else."""
+    from .. import optchild, optrun
+    enc = case['enc']
+    cfg = msgwork.cfg_of('packaged')
+    kk = case['base']
+    while kk % 5 == 4:
+        kk += 8
+    cid, e2, hexbm, wire = base(ctx, kk)
+    if cid != 'packaged' or e2 != enc or hexbm:
+        wire = ref.encode({'MTI': '1240', 'DE2': '4444555566667777', 'DE4': 1234, 'DE12': datetime.datetime(2024, 3, 10, 2, 30, 0),
+                           'DE48': '0023003ABC', 'DE55': bytes.fromhex('9f2608aabbccddeeff00119f270180')}, cfg, enc)
+    L = mutate.layout(wire, cfg, enc, False)
+    jobs, good = [], set()
+    jobs.append({'op': 'loads', 'data': hx(wire), 'enc': enc})
+    good.add(0)
+    muts = list(mutate.length_rewrites(wire, L, enc))[:120] + list(mutate.truncations(wire))[:60] + list(mutate.icc_tails(wire, L, cfg, enc))[:40]
+    for how, m in muts:
+        jobs.append({'op': 'loads', 'data': hx(m), 'enc': enc})
+    for blocked in (False, True):
+        big = ref.encode({'MTI': '1240', 'DE2': '4444555566667777', 'DE72': 'x' * 999, 'DE111': 'y' * 999, 'DE127': 'z' * 999}, cfg, enc)
+        stream = refb.vbs([wire, big, wire])
+        data = refb.block(stream) if blocked else stream
+        good.add(len(jobs))
+        jobs.append({'op': 'read', 'data': hx(data), 'enc': enc, 'blocked': blocked})
+        for how, m in muts[::9]:
+            s2 = refb.vbs([wire, m, wire])
+            jobs.append({'op': 'read', 'data': hx(refb.block(s2) if blocked else s2), 'enc': enc, 'blocked': blocked})
+        for cut in (len(data) - 1, len(data) - 5, len(stream) // 2, 4, 3, 1):
+            jobs.append({'op': 'read', 'data': hx(data[:cut]), 'enc': enc, 'blocked': blocked})
+        good.add(len(jobs))
+        jobs.append({'op': 'roundtrip', 'enc': enc, 'blocked': blocked, 'msgs': optchild.jsonable([
+            {'MTI': '1240', 'DE2': '4444555566667777', 'DE4': 99, 'DE55': bytes.fromhex('9f2608aabbccddeeff00119f270180')},
+            {'MTI': '1240', 'DE72': 'x' * 999, 'DE111': 'y' * 999, 'DE127': 'z' * 999, 'PDS0023': 'ABC'}])})
+    if not ctx.tmpdir:
+        ctx.tmpdir = tempfile.mkdtemp(prefix='vmon-c07-')
+    status, answers, at, done, err = optrun.run(ctx, jobs, case['options'], ctx.tmpdir)
+    label = ' '.join(case['options'])
+    ctx.case_done(['opt', case['options'], enc], nontrivial=True, enumerated=True, n=len(jobs))
+    ctx.seen('interpreter options the decode workload was repeated under', label)
+    if status == 'wall':
+        ctx.inconclusive_because('interpreter-options child hit the wall-clock watchdog (%s)' % label)
+        return
+    if status == 'cpu':
+        ctx.violation('options:%s:cpu_allowance_used_up' % label, {'case': case, 'job': jobs[at] if at is not None else None})
+        return
+    for i, job in enumerate(jobs):
+        a = answers.get(i)
+        ctx.count('calls judged in a child interpreter')
+        if a is None:
+            ctx.violation('options:%s:child_ended_in_job' % label, {'case': case, 'op': job['op'], 'stderr': err})
+            return
+        if 'escape' in a:
+            ctx.violation('options:%s:%s:escape:%s@%s' % (label, job['op'], a['escape'], a.get('where')),
+                          {'case': case, 'job': {k: (v if k != 'msgs' else '...') for k, v in job.items()}})
+            return
+        if i in good and 'ok' not in a:
+            ctx.violation('options:%s:%s:good_input_refused:%s' % (label, job['op'], a.get('lib')), {'case': case, 'job_index': i})
+            return
 
 
 def judge_cpu_guard(ctx, case):
@@ -622,6 +696,8 @@ def require(m):
     for need in ('loads outcome: returned', 'loads outcome: library_error'):
         if not c.get(need):
             reasons.append('never observed: ' + need)
+    if len(set(m['classes'].get('interpreter options the decode workload was repeated under', ()))) < 5 and not m['violations']:
+        reasons.append('decode workload not repeated under all interpreter options')
     if c.get('inputs decoded in a child under a CPU allowance', 0) < 100 and not m['violations']:
         reasons.append('fewer than 100 inputs decoded in the CPU-guarded child')
     if not c.get('tool runs: mci_ipm_to_csv') or not c.get('tool runs: mideu extract'):
